@@ -62,7 +62,8 @@ class Built:
     def __init__(self, case, samples, weights, normalized):
         H, K, HK, KIN = _classes()
         s = np.array(samples, dtype=float)
-        w = None if weights is None else np.array(weights, dtype=float)
+        # (a numpy array is handed on as it is — its storage type is the caller's: multiplicities from np.unique are integers)
+        w = None if weights is None else (weights if isinstance(weights, np.ndarray) else np.array(weights, dtype=float))
         self.cls = case["cls"]
         self.kin = None
         self.wrapper = None
@@ -472,6 +473,20 @@ def oracle(case, want_integral=True):
                               "are multiplied by %r: %r vs %r" % (nm, c, got[:3], ref[:3])))
             if not all(same(a, b) for a, b in zip(B.measurement(), info["meas"])):
                 fails.append(("weight_scale_invariant", "ddt_measurement changes with the weight scale"))
+        # 2b. the storage type of the weights is not a property of the posterior: integer-valued weights held in an integer
+        #     array (multiplicities), the same values as floats, and an integer multiple of them give the same likelihood
+        if all(float(w).is_integer() for w in weights) and sum(weights) > 0:
+            for tag, wi in (("integer array", np.array(weights, dtype=np.int64)),
+                            ("integer array, all weights times 3", np.array(weights, dtype=np.int64) * 3)):
+                B = build(case, samples, wi, True)[0]
+                if B is None:
+                    fails.append(("weight_scale_invariant", "weights given as %s raise" % tag))
+                    continue
+                got = [B.f(x) for x in xs]
+                if not all(same(a, b) for a, b in zip(got, fN)):
+                    fails.append(("weight_scale_invariant", "normalised log-likelihood differs when the weights are given as %s: %r vs %r (float weights)"
+                                  % (tag, got[:3], fN[:3])))
+                    break
     else:
         # weights=None is the same as all weights equal (any constant)
         B = build(case, samples, [case["scale"]] * len(samples), True)[0]
